@@ -9,7 +9,7 @@
 import os
 from copy import copy
 
-from mo_dots import is_list, to_data
+from mo_dots import is_list, to_data, from_data
 from mo_dots import listwrap, coalesce
 from mo_logs import logger, constants, Except
 from mo_logs.log_usingNothing import StructuredLogger
@@ -75,17 +75,13 @@ def command_loop(local):
                 exec(command["exec"], context, local)
                 STDOUT.write(DONE)
             else:
-                for k, v in command.items():
+                for k, v in from_data(command).items():
+                    # PASS THE ARGUMENTS AS VALUES: JSON TEXT (true, false, null) IS NOT PYTHON SOURCE
+                    func = eval(k, context, local)
                     if is_list(v):
-                        exec(
-                            f"_return = {k}(" + ",".join(map(value2json, v)) + ")", context, local,
-                        )
+                        local["_return"] = func(*v)
                     else:
-                        exec(
-                            f"_return = {k}(" + ",".join(kk + "=" + value2json(vv) for kk, vv in v.items()) + ")",
-                            context,
-                            local,
-                        )
+                        local["_return"] = func(**v)
                     STDOUT.write(value2json({"out": local["_return"]}).encode("utf8"))
                     STDOUT.write(b"\n")
         except Exception as cause:
